@@ -47,7 +47,19 @@ type ncase struct {
 	// api
 	Raw string `json:"raw,omitempty"`
 	Op  string `json:"op,omitempty"`
-	Tag string `json:"tag"`
+	// sequence: one client keypair (TapeX) and one server keypair (TapeY) reused over all steps
+	Steps []step `json:"steps,omitempty"`
+	Tag   string `json:"tag"`
+}
+
+// step is one pair of calls (ClientHandshake, ServerHandshake) inside a sequence.
+type step struct {
+	BPriv string `json:"b_priv"`          // identity key of this step (KeypairFromHex on the server side)
+	ID    string `json:"id"`              // node ID of this step
+	CliB  string `json:"cli_b,omitempty"` // idPublic handed to the client (empty = the honest B)
+	CliY  string `json:"cli_y,omitempty"` // serverPublic handed to the client (empty = the reused server key)
+	SrvX  string `json:"srv_x,omitempty"` // clientPublic handed to the server (empty = the reused client key)
+	Kind  string `json:"kind"`
 }
 
 const protoID = "ntor-curve25519-sha256-1"
@@ -261,6 +273,112 @@ func runHandshake(r *vlib.Run, d *vlib.Driver, c ncase) {
 	}
 }
 
+// runSequence: the SAME client Keypair and the SAME server Keypair objects are used for every step;
+// each call must be a function of that call's arguments only (compared with the Lean model, the
+// independent computation, the zero-DH verdict, and the same call made with freshly built keypairs).
+func runSequence(r *vlib.Run, d *vlib.Driver, c ncase) {
+	kx := keypairFromTape(vlib.UnHex(c.TapeX), c.EllX)
+	ky := keypairFromTape(vlib.UnHex(c.TapeY), c.EllY)
+	X, Y := append([]byte(nil), kx.Public().Bytes()[:]...), append([]byte(nil), ky.Public().Bytes()[:]...)
+	x, y := append([]byte(nil), kx.Private().Bytes()[:]...), append([]byte(nil), ky.Private().Bytes()[:]...)
+	kbs := map[string]*ntor.Keypair{} // identity keypairs are reused as well when a step names the same key again
+	r.Case(fmt.Sprintf("seq %s %s %v", c.TapeX[:16], c.TapeY[:16], c.Steps), true)
+	r.Count("sequence-length", fmt.Sprint(len(c.Steps)))
+	for i, st := range c.Steps {
+		kb := kbs[st.BPriv]
+		if kb == nil {
+			var err error
+			if kb, err = ntor.KeypairFromHex(st.BPriv); err != nil {
+				panic(err)
+			}
+			kbs[st.BPriv] = kb
+		}
+		B, b := kb.Public().Bytes()[:], kb.Private().Bytes()[:]
+		idb := vlib.UnHex(st.ID)
+		id, _ := ntor.NewNodeID(idb)
+		srvX, cliY, cliB := or(st.SrvX, X), or(st.CliY, Y), or(st.CliB, B)
+		r.Count("sequence-step", st.Kind)
+		where := fmt.Sprintf("step %d/%d (%s) of a sequence on one reused keypair", i+1, len(c.Steps), st.Kind)
+
+		cok, cks, cauth := ntor.ClientHandshake(kx, pk(cliY), pk(cliB), id)
+		sok, sks, sauth := ntor.ServerHandshake(pk(srvX), ky, kb, id)
+		cImpl, sImpl := fmtRes(cok, cks[:], cauth[:]), fmtRes(sok, sks[:], sauth[:])
+
+		// S: no history dependence — the same calls with freshly built keypairs
+		fx, fy := keypairFromTape(vlib.UnHex(c.TapeX), c.EllX), keypairFromTape(vlib.UnHex(c.TapeY), c.EllY)
+		fb, _ := ntor.KeypairFromHex(st.BPriv)
+		fok, fks, fauth := ntor.ClientHandshake(fx, pk(cliY), pk(cliB), id)
+		if f := fmtRes(fok, fks[:], fauth[:]); f != cImpl {
+			r.Violate("client-handshake-history-dependent", "impl-oracle",
+				fmt.Sprintf("%s: ClientHandshake(x=%x, Y=%x, B=%x, id=%s) on the reused keypair = %q, on a fresh keypair with the same key = %q", where, x, cliY, cliB, st.ID, cImpl, f), c)
+		}
+		gok, gks, gauth := ntor.ServerHandshake(pk(srvX), fy, fb, id)
+		if g := fmtRes(gok, gks[:], gauth[:]); g != sImpl {
+			r.Violate("server-handshake-history-dependent", "impl-oracle",
+				fmt.Sprintf("%s: ServerHandshake(X=%x, y=%x, b=%x, id=%s) on the reused keypairs = %q, on fresh ones = %q", where, srvX, y, b, st.ID, sImpl, g), c)
+		}
+		// S: independent computation and zero-DH verdict, from this call's arguments only
+		jok, jks, jauth := ntorIndep(rawDH(x, cliY), rawDH(x, cliB), idb, cliB, X, cliY)
+		if j := fmtRes(jok, jks, jauth); j != cImpl {
+			r.Violate("client-differs-from-independent-ntor", "impl-oracle",
+				fmt.Sprintf("%s: ClientHandshake(x=%x, Y=%x, B=%x, id=%s) = %q, independent computation %q", where, x, cliY, cliB, st.ID, cImpl, j), c)
+		}
+		iok, iks, iauth := ntorIndep(rawDH(y, srvX), rawDH(b, srvX), idb, B, srvX, Y)
+		if j := fmtRes(iok, iks, iauth); j != sImpl {
+			r.Violate("server-differs-from-independent-ntor", "impl-oracle",
+				fmt.Sprintf("%s: ServerHandshake(X=%x, y=%x, b=%x, id=%s) = %q, independent computation %q", where, srvX, y, b, st.ID, sImpl, j), c)
+		}
+		if cok == (allZero(rawDH(x, cliY)) || allZero(rawDH(x, cliB))) {
+			r.Violate("client-status-vs-zero-dh", "impl-oracle", fmt.Sprintf("%s: client status %v with EXP %x %x", where, cok, rawDH(x, cliY), rawDH(x, cliB)), c)
+		}
+		if sok == (allZero(rawDH(y, srvX)) || allZero(rawDH(b, srvX))) {
+			r.Violate("server-status-vs-zero-dh", "impl-oracle", fmt.Sprintf("%s: server status %v with EXP %x %x", where, sok, rawDH(y, srvX), rawDH(b, srvX)), c)
+		}
+		if st.Kind == "honest" || st.Kind == "other-identity" || st.Kind == "other-id" {
+			if !cok || !sok || *cks != *sks || *cauth != *sauth {
+				r.Violate("honest-handshake-disagrees", "impl-oracle", fmt.Sprintf("%s: server %q, client %q", where, sImpl, cImpl), c)
+			}
+		}
+		// the keypair objects still hold the same keys
+		if !bytes.Equal(kx.Public().Bytes()[:], X) || !bytes.Equal(kx.Private().Bytes()[:], x) || !bytes.Equal(ky.Public().Bytes()[:], Y) || !bytes.Equal(ky.Private().Bytes()[:], y) {
+			r.Violate("handshake-modifies-keypair", "impl-oracle", where+": a Keypair's key material changed", c)
+		}
+		// C: the model, call by call
+		cModel := d.Call("cli %s %s %s %s %s", vlib.Hex(x), vlib.Hex(X), vlib.Hex(cliY), vlib.Hex(cliB), st.ID)
+		sModel := d.Call("srv %s %s %s %s %s %s", vlib.Hex(srvX), vlib.Hex(y), vlib.Hex(Y), vlib.Hex(b), vlib.Hex(B), st.ID)
+		r.Validated(2)
+		if cModel != cImpl {
+			r.Violate("model-impl-disagree-client", "correspondence", fmt.Sprintf("%s: ClientHandshake implementation %q, Lean model %q", where, cImpl, cModel), c)
+		}
+		if sModel != sImpl {
+			r.Violate("model-impl-disagree-server", "correspondence", fmt.Sprintf("%s: ServerHandshake implementation %q, Lean model %q", where, sImpl, sModel), c)
+		}
+	}
+}
+
+// runKdfSeq: Kdf called repeatedly on the SAME seed slice with varying lengths.
+func runKdfSeq(r *vlib.Run, d *vlib.Driver, c ncase) {
+	seed := vlib.UnHex(c.Seed)
+	orig := append([]byte(nil), seed...)
+	r.Case("kdfseq "+c.Seed+c.Raw, true)
+	r.Count("kdf", "repeated-on-one-slice")
+	for i, nb := range vlib.UnHex(c.Raw) {
+		n := int(nb) * 3
+		out, p := kdfCall(seed, n)
+		if p || !bytes.Equal(out, hkdfIndep(orig, []byte(protoID+":key_extract"), []byte(protoID+":key_expand"), n)) || !bytes.Equal(seed, orig) {
+			r.Violate("kdf-history-dependent", "impl-oracle",
+				fmt.Sprintf("call %d of Kdf(%s, %d) on one seed slice: panicked=%v, seed now %x, output differs from HKDF of the original seed", i+1, c.Seed, n, p, seed), c)
+			return
+		}
+		if i%4 == 0 {
+			r.Validated(1)
+			if g := d.Call("kdf %s %d", c.Seed, n); g != vlib.Hex(out) {
+				r.Violate("model-impl-disagree-kdf", "correspondence", fmt.Sprintf("Kdf(%s, %d) (repeated): Lean model differs", c.Seed, n), c)
+			}
+		}
+	}
+}
+
 func kdfCall(seed []byte, n int) (out []byte, panicked bool) {
 	defer func() {
 		if recover() != nil {
@@ -371,6 +489,10 @@ func runCase(r *vlib.Run, d *vlib.Driver, c ncase) {
 		runKdf(r, d, c)
 	case "api":
 		runAPI(r, d, c)
+	case "sequence":
+		runSequence(r, d, c)
+	case "kdfseq":
+		runKdfSeq(r, d, c)
 	}
 }
 
@@ -405,6 +527,11 @@ func flip(b []byte, bit int) []byte {
 	o := append([]byte(nil), b...)
 	o[bit/8] ^= 1 << uint(bit%8)
 	return o
+}
+
+// kx0: the public key of the sequence's client keypair
+func kx0(c ncase) []byte {
+	return append([]byte(nil), keypairFromTape(vlib.UnHex(c.TapeX), c.EllX).Public().Bytes()[:]...)
 }
 
 func generate(r *vlib.Run) []ncase {
@@ -467,6 +594,45 @@ func generate(r *vlib.Run) []ncase {
 			BPriv: hex.EncodeToString(bp), ID: h(make([]byte, 20)), Tag: "honest"})
 	}
 
+	// sequences on ONE reused client keypair and ONE reused server keypair: identity keys, node IDs and
+	// peer ephemerals vary from call to call (honest, a different honest key, low-order, non-canonical)
+	for i := 0; i < r.Scale(80, 1200); i++ {
+		c := ncase{Kind: "sequence", TapeX: h(rng.Bytes(32 * 40)), TapeY: h(rng.Bytes(32 * 40)), EllX: i%3 != 2, EllY: i%3 != 1, Tag: "sequence"}
+		b1, b2 := hex.EncodeToString(rng.Bytes(32)), hex.EncodeToString(rng.Bytes(32))
+		id1, id2 := h(rng.Bytes(20)), h(rng.Bytes(20))
+		kb1, _ := ntor.KeypairFromHex(b1)
+		B1 := kb1.Public().Bytes()[:]
+		other := keypairFromTape(rng.Bytes(32*40), true)
+		menu := []step{
+			{BPriv: b1, ID: id1, Kind: "honest"},
+			{BPriv: b2, ID: id1, Kind: "other-identity"},
+			{BPriv: b1, ID: id2, Kind: "other-id"},
+			{BPriv: b1, ID: id1, CliB: h(low[rng.Intn(len(low))]), Kind: "low-order-identity-key"},
+			{BPriv: b1, ID: id1, CliB: h(flip(B1, 255)), Kind: "identity-key-bit255"},
+			{BPriv: b1, ID: id1, CliB: h(flip(B1, rng.Intn(255))), Kind: "perturbed-identity-key"},
+			{BPriv: b2, ID: id2, CliY: h(low[rng.Intn(len(low))]), Kind: "low-order-server-key"},
+			{BPriv: b1, ID: id1, CliY: h(other.Public().Bytes()[:]), Kind: "other-server-key"},
+			{BPriv: b1, ID: id1, SrvX: h(low[rng.Intn(len(low))]), Kind: "low-order-client-key"},
+			{BPriv: b2, ID: id1, SrvX: h(other.Public().Bytes()[:]), Kind: "other-client-key"},
+			{BPriv: b1, ID: id1, SrvX: h(flip(kx0(c), 255)), Kind: "client-key-bit255"},
+		}
+		n := rng.Range(3, 8)
+		// always start half of the sequences honestly (state set by a good call), the others with a bad call
+		if i%2 == 0 {
+			c.Steps = append(c.Steps, menu[0])
+		} else {
+			c.Steps = append(c.Steps, menu[3+rng.Intn(len(menu)-3)])
+		}
+		for len(c.Steps) < n {
+			c.Steps = append(c.Steps, menu[rng.Intn(len(menu))])
+		}
+		c.Steps = append(c.Steps, menu[0]) // and end with the honest call again
+		cs = append(cs, c)
+	}
+	for i := 0; i < r.Scale(40, 400); i++ {
+		cs = append(cs, ncase{Kind: "kdfseq", Seed: h(rng.Bytes(32)), Raw: h(rng.Bytes(12)), Tag: "kdfseq"})
+	}
+
 	// Kdf
 	lens := []int{0, 1, 16, 31, 32, 33, 63, 64, 65, 72, 144, 255, 256, 1000, 255*32 - 1, 255 * 32}
 	for i := 0; i < r.Scale(400, 4000); i++ {
@@ -522,7 +688,7 @@ func generate(r *vlib.Run) []ncase {
 
 func main() {
 	r := vlib.NewRun("C08")
-	r.Rule = "cases: handshake (client/server ephemeral keys from NewKeypair on a recorded tape, with and without Elligator; identity key; node ID; optionally one public value replaced by a one-bit perturbation or by a low-order / non-canonical u-coordinate), kdf (seed, n, m), api (constructor inputs, CompareAuth pairs); every case is non-trivial; distinct by canonical case text"
+	r.Rule = "cases: handshake (client/server ephemeral keys from NewKeypair on a recorded tape, with and without Elligator; identity key; node ID; optionally one public value replaced by a one-bit perturbation or by a low-order / non-canonical u-coordinate), sequence (3-9 such handshakes on ONE reused client Keypair and ONE reused server Keypair with identity keys, node IDs and peer keys varying from call to call), kdf (seed, n, m), api (constructor inputs, CompareAuth pairs); every case is non-trivial; distinct by canonical case text"
 	r.Assumptions = []string{
 		"DhComm for the real X25519 (the two DH computations commute, also for Elligator-dirty public keys) is a hypothesis of the agreement theorem; sampled here on every honest run",
 		"collision infeasibility of HMAC-SHA256 (the binding theorems exhibit the colliding strings)"}
